@@ -268,7 +268,7 @@ func genC02(r *rng, tier string, st *stats) []taggedScen {
 
 // ---------------------------------------------------------------- random nested flows
 
-var flowActs = []int{1, 5, 6}
+var flowActs = []int{1, 5, 6, 55}
 
 // fullKinds: node kinds whose three phases are user-visible (the lifecycle monitor applies)
 func fullKind(r *rng, N int) NodeDef {
@@ -659,5 +659,177 @@ func commonPool(r *rng, tier, tag string) []taggedScen {
 		out = append(out, injectAll(base, func(old Resp, h *sb) Resp { old.Cancel = true; return old }, "cancel", 3, r)...)
 		out = append(out, injectAll(base, func(old Resp, h *sb) Resp { return rErr(h.errID()) }, "fail", 3, r)...)
 	}
+	return out
+}
+
+// ---------------------------------------------------------------- C03 / C10
+
+// leafWithScript adds a visible leaf whose post returns the given cyclic action script and then
+// the never-connected action 99 for ever (so every path is finite).
+func (b *sb) leafWithScript(kind NodeDef, acts []int) int {
+	x := b.add(kind)
+	b.script(x, "prep", 0, []Resp{}, rOk(b.tok()))
+	b.script(x, "exec", 0, []Resp{}, rOk(b.tok()))
+	var ps []Resp
+	for _, a := range acts {
+		ps = append(ps, rAct(a))
+	}
+	b.script(x, "post", 0, ps, rAct(99))
+	return x
+}
+
+var k2kind = NodeDef{Kind: "user", Impl: "k2", Fb: "none", Prep: "direct", Exec: "direct", Post: "direct"}
+
+func genC03(r *rng, tier string, st *stats) []taggedScen {
+	var out []taggedScen
+	acts := []int{5, 55} // "a5" is a prefix of "a55"
+	scripts := [][]int{{5}, {55}, {5, 55}, {55, 5}, {5, 5}, {55, 55}}
+	kinds := []NodeDef{k2kind,
+		{Kind: "user", Impl: "k1", Retry: retry(1, 0), Fb: "default", Prep: "direct", Exec: "direct", Post: "direct"},
+		{Kind: "user", Impl: "opt", Retry: retry(1, 0), Fb: "default", Prep: "res", Exec: "any", Post: "res"}}
+	// exhaustive: 2 nodes x 2 actions, every table in {unconnected, nil, n0, n1}^4, every pair of scripts
+	targets := []int{-2, -1, 0, 1} // -2 unconnected, -1 nil
+	idx := 0
+	for t := 0; t < 256; t++ {
+		cell := [4]int{targets[t&3], targets[(t>>2)&3], targets[(t>>4)&3], targets[(t>>6)&3]}
+		for s0 := range scripts {
+			for s1 := range scripts {
+				idx++
+				if tier != "thorough" && (s0+s1+t)%3 != 0 {
+					continue // quick: a third of the script pairs for every table
+				}
+				b := newSB()
+				n0 := b.leafWithScript(kinds[idx%3], scripts[s0])
+				n1 := b.leafWithScript(kinds[(idx/3)%3], scripts[s1])
+				ns := []int{n0, n1}
+				var conns [][]int
+				for c := 0; c < 4; c++ {
+					from, a := ns[c/2], acts[c%2]
+					if cell[c] == -2 {
+						continue
+					}
+					to := -1
+					if cell[c] >= 0 {
+						to = ns[cell[c]]
+					}
+					// sometimes connect the pair to the wrong target first, then overwrite
+					if (idx+c)%4 == 0 {
+						wrong := ns[(c+idx)%2]
+						if (idx/4)%2 == 0 {
+							wrong = -1
+						}
+						conns = append(conns, []int{from, a, wrong})
+					}
+					conns = append(conns, []int{from, a, to})
+				}
+				if idx%2 == 0 { // a different Connect order
+					for i, j := 0, len(conns)-1; i < j; i, j = i+1, j-1 {
+						// reversing must not reorder the two calls on one pair
+						if !(conns[i][0] == conns[j][0] && conns[i][1] == conns[j][1]) {
+							conns[i], conns[j] = conns[j], conns[i]
+						}
+					}
+					// keep "last call on a pair wins" as intended: re-append the final target of every cell
+					for c := 0; c < 4; c++ {
+						if cell[c] == -2 {
+							continue
+						}
+						to := -1
+						if cell[c] >= 0 {
+							to = ns[cell[c]]
+						}
+						conns = append(conns, []int{ns[c/2], acts[c%2], to})
+					}
+				}
+				b.sc.Root = b.flow(n0, conns)
+				if idx%5 == 0 {
+					b.sc.Runs = 2
+				}
+				out = append(out, taggedScen{sc: b.sc, tags: []string{"family=exhaustive2x2", fmt.Sprintf("conns=%d", bucket(len(conns)))},
+					nontrivial: true})
+			}
+		}
+	}
+	nrand := 300
+	if tier == "thorough" {
+		nrand = 6000
+	}
+	for i := 0; i < nrand; i++ {
+		sc := randFlowScen(r, 3, "C03", true)
+		sc.sc.Runs = 3
+		sc.tags = append(sc.tags, "repeated_runs")
+		out = append(out, sc)
+	}
+	out = append(out, nestChains()...)
+	out = append(out, commonPool(r, tier, "C03")...)
+	st.Exhaustive = true
+	st.Scope = "2 nodes x 2 actions (one a prefix of the other) x every table in {unconnected, nil, n0, n1}^4 x per-node cyclic action scripts of length <= 2 (quick: a third of the script pairs) with overwritten and re-ordered Connect lists; random graphs up to 12 nodes, nesting depth 3, run three times; nested chains"
+	st.Rule = "enumeration + seeded random graphs; all are non-trivial (at least one routing decision); distinct by scenario hash"
+	return out
+}
+
+// nestChains: a leaf returning action x inside D nested flows; level j routes (child, x) to a
+// marker node, the levels below leave x unconnected or connect it to nil; the other levels have
+// an edge on the default action to a decoy.
+func nestChains() []taggedScen {
+	var out []taggedScen
+	for D := 1; D <= 4; D++ {
+		for j := 1; j <= D; j++ {
+			for mode := 0; mode < 3; mode++ { // how the levels below j end: 0 unconnected, 1 nil, 2 alternating
+				for _, x := range []int{5, 1, 0} {
+					b := newSB()
+					leaf := b.leafWithScript(k2kind, []int{x})
+					cur := leaf
+					for lvl := 1; lvl <= D; lvl++ {
+						var conns [][]int
+						decoy := b.marker()
+						xr := x
+						if xr == 0 {
+							xr = 1
+						}
+						if lvl == j {
+							hit := b.marker()
+							conns = append(conns, []int{cur, xr, hit})
+							if xr != 1 {
+								conns = append(conns, []int{cur, 1, decoy})
+							}
+						} else {
+							if lvl < j && (mode == 1 || (mode == 2 && lvl%2 == 0)) {
+								conns = append(conns, []int{cur, xr, -1})
+							}
+							if xr != 1 {
+								conns = append(conns, []int{cur, 1, decoy})
+							}
+						}
+						cur = b.flow(cur, conns)
+					}
+					b.sc.Root = cur
+					out = append(out, taggedScen{sc: b.sc, tags: []string{"family=nestchain", fmt.Sprintf("depth=%d", D), fmt.Sprintf("routed_at=%d", j)}, nontrivial: true})
+				}
+			}
+		}
+	}
+	return out
+}
+
+func genC10(r *rng, tier string, st *stats) []taggedScen {
+	var out []taggedScen
+	out = append(out, nestChains()...)
+	n := 500
+	if tier == "thorough" {
+		n = 8000
+	}
+	inj := func(old Resp, h *sb) Resp { return rErr(h.errID()) }
+	for i := 0; i < n; i++ {
+		base := randFlowScen(r, 4, "C10", true)
+		out = append(out, base)
+		if i%3 == 0 { // inner flows ending by error
+			out = append(out, injectAll(base, inj, "fail", 2, r)...)
+		}
+	}
+	out = append(out, commonPool(r, tier, "C10")...)
+	st.Scope = fmt.Sprintf("nested chains (depth 1..4 x level that routes the inner action x inner flows ending unconnected / on nil / alternating x action custom, default, empty) + %d random hierarchies up to depth 4 with reused inner flows, cycles, nil edges, failures inside inner flows", n)
+	st.Rule = "enumeration of nested chains + seeded random hierarchies; non-trivial when more than 2 nodes; distinct by scenario hash"
+	st.Extra["nontrivial_floor"] = n / 2
 	return out
 }
